@@ -1065,7 +1065,10 @@ func (sb *seqbag) LongestORF(reverse bool) (orf Sequence, err error) {
 
 	// log.Print("Longest ORF found in sequence ", bestseq.Name())
 	// log.Print(string(bestseq.SequenceChar()[beststart:bestend]))
-	orf = NewSequence(name, bestseq.SequenceChar()[beststart:bestend], "")
+	// The ORF is a copy: it does not share its residues with the sequence it comes from
+	orfseq := make([]uint8, bestend-beststart)
+	copy(orfseq, bestseq.SequenceChar()[beststart:bestend])
+	orf = NewSequence(name, orfseq, "")
 	return
 }
 
